@@ -472,7 +472,7 @@ func (fr *Frame) findLoops(order []*ssa.BasicBlock) {
 	}
 	sort.Slice(headers, func(i, j int) bool { return headers[i].Index < headers[j].Index })
 	for n, h := range headers {
-		li := &loopInfo{header: h, ord: n + 1, body: map[*ssa.BasicBlock]bool{h: true}, ws: &WriteSet{Keys: map[string]bool{}}}
+		li := &loopInfo{header: h, ord: n + 1, body: map[*ssa.BasicBlock]bool{h: true}, ws: &WriteSet{Keys: map[string]bool{}, Refs: map[string][]ssa.Value{}, AnyRef: map[string]bool{}, track: true}}
 		// natural loop: all nodes that reach a back-edge source without passing h
 		var stack []*ssa.BasicBlock
 		for _, p := range h.Preds {
@@ -761,6 +761,37 @@ func (fr *Frame) enterLoop(li *loopInfo, h *ssa.BasicBlock, preds []*ssa.BasicBl
 		if strings.HasPrefix(k, "!error") {
 			c.errorf("%s loop %d: %s", fr.fn.Name(), li.ord, k)
 			continue
+		}
+		// precise havoc: only the objects the loop can write through loop-invariant references
+		if !li.ws.AnyRef[k] && (k[0] == 'f' || k[0] == 'c' || k[0] == 'm' || k[0] == 'd') && k[1] == ':' {
+			precise := true
+			var refs []string
+			for _, rv := range li.ws.Refs[k] {
+				if ins, ok := rv.(ssa.Instruction); ok && li.body[ins.Block()] {
+					switch rv.(type) {
+					case *ssa.Alloc, *ssa.MakeMap:
+						continue // fresh object created inside the loop
+					}
+					precise = false
+					break
+				}
+				if v, ok := fr.vals[rv]; ok && v.LV != nil && v.LV.kind != lvObj {
+					precise = false
+					break
+				}
+				refs = append(refs, fr.term(rv, hs).S)
+			}
+			if precise {
+				es := elemSortOfKey(c.sortOfKey(k))
+				for _, r := range refs {
+					nv := c.freshConst("lhv", Sort(es))
+					if t, ok := keyTypes[k]; ok && (k[0] == 'f' || k[0] == 'c') {
+						c.assumeRange(nv, t)
+					}
+					c.heapSet(hs, k, app("store", c.heapGet(hs, k), r, nv))
+				}
+				continue
+			}
 		}
 		c.havocKey(hs, k)
 	}
